@@ -12,6 +12,7 @@ package seqmc
 import (
 	"crypto/sha256"
 	"fmt"
+	"reflect"
 	"runtime"
 	"sync"
 	"testing"
@@ -286,4 +287,35 @@ func Fill(r *vrep.Result, name string, st *Stats) {
 		r.Note("%s: %d further violating transitions not listed", name, n)
 	}
 	r.Outcome(fmt.Sprintf("%s: states=%d transitions=%d depth=%d closed=%v", name, st.States, st.Transitions, st.MaxDepth, st.Closed))
+}
+
+// ExtraFields renders every field of the struct that p points to whose name is NOT in known. Harness keys are built
+// from the fields the harness author knows (often through an abstraction such as "requests mod N"); appending
+// ExtraFields makes a field that a later change ADDS to the implementation part of the key automatically, so that
+// two implementation states that differ only in the new field are not merged (a key that is too coarse hides bugs
+// silently, one that is too fine only costs time).
+func ExtraFields(p any, known ...string) string {
+	v := reflect.ValueOf(p)
+	for v.Kind() == reflect.Pointer || v.Kind() == reflect.Interface {
+		if v.IsNil() {
+			return ""
+		}
+		v = v.Elem()
+	}
+	if v.Kind() != reflect.Struct {
+		return ""
+	}
+	skip := map[string]bool{}
+	for _, k := range known {
+		skip[k] = true
+	}
+	out := ""
+	t := v.Type()
+	for i := 0; i < v.NumField(); i++ {
+		if skip[t.Field(i).Name] {
+			continue
+		}
+		out += fmt.Sprintf(" %s=%v", t.Field(i).Name, v.Field(i))
+	}
+	return out
 }
